@@ -16,6 +16,12 @@ CHECKS = {
          "Index and state x command sweeps are complete enumerations; payload/content dimensions are sampled. Behaviour CiA 301 leaves open is accepted in every listed alternative.", "relational-model monitor over enumerated requests", "3/C04"),
  "C05": ("exploration", "hostile SDO histories; before each probe the reachable server state is read from the public structure; [abort | reset communication] + clean reference transfer must succeed",
          "AG EF idle restated as: recovered from every distinct reachable state observed (count in evidence).", "recovery probes after hostile histories", "3/C05"),
+ "C06": ("exploration", "C engine with independent oracles: exhaustive small-scope dictionaries in exact-size arrays (ASan red-zone behind the end marker), random dictionaries, counting type for init-exactly-once, all 8/16-bit values and boundary/random 32-bit values for typed access, every buffer length 0..4000",
+         "Small scope (all subsets of 8 keys), 8/16-bit value domains and buffer lengths are complete enumerations; large dictionaries and 32-bit values are sampled.", "enumerated differential test against a linear-scan oracle under ASan", "3/C06"),
+ "C07": ("exploration", "real timer code in lockstep with a sequential reference model; breadth-first exploration with snapshot/restore over distinct (model, implementation image) states, random long sequences, conversion sweep",
+         "Exhaustive only up to the reported depth / state cap per pool size; delays from a small domain in the exhaustive part.", "lockstep reference-model monitor over enumerated + random operation sequences", "3/C07"),
+ "C08": ("exploration", "trap-flag single stepping raises the tick ISR at every instruction of every task-level timer call (deferred to unlock inside critical sections); trace oracles for exactly-once, no-loss, no-run-after-delete, conservation at quiescent points and ISR entries; separated service/process",
+         "Interleavings: one or two interrupts per call, at x86-64 instruction granularity of the gcc -O1 build; single core, non-nesting ISR.", "instruction-granular interrupt injection + trace monitors", "3/C08"),
 }
 NA = {}
 
@@ -25,7 +31,7 @@ man = {"version": 1,
                  "enable": "-DCANOPEN_STACK_VERIF is passed by monitors/build.py to every build of /repo/src (no source hook exists so far; all observation happens at the driver/callback boundary)",
                  "baseline_off_cmd": "./check --baseline-off",
                  "source_commits": [], "add_only": True},
-       "engines": [{"name": "cosim", "path": "harness/cosim.c", "serves_properties": sorted(CHECKS), "kind_free_text": "line-protocol executor running the real stack with harness drivers, callbacks, red-zoned memory and invariant walkers"}],
+       "engines": [{"name": "dictcheck", "path": "harness/dictcheck.c", "serves_properties": ["C06"], "kind_free_text": "C engine, ASan, linear-scan oracle"}, {"name": "tmrcheck", "path": "harness/tmrcheck.c", "serves_properties": ["C07", "C08"], "kind_free_text": "C engine: lockstep timer model, BFS with snapshots, trap-flag ISR injection"}, {"name": "cosim", "path": "harness/cosim.c", "serves_properties": sorted(p for p in CHECKS if p not in ("C06", "C07", "C08")), "kind_free_text": "line-protocol executor running the real stack with harness drivers, callbacks, red-zoned memory and invariant walkers"}],
        "checks": [], "not_applicable": [],
        "notes": "All checks rebuild the stack from /repo's working tree (VERIF_REPO overrides for scratch copies). Exit 0 held / 1 violation / 2 inconclusive."}
 for pid in sorted(props):
@@ -33,7 +39,7 @@ for pid in sorted(props):
         level, text, note, tech, ref = CHECKS[pid]
         man["checks"].append({"property_id": pid, "quick_cmd": "./check %s --tier quick" % pid, "thorough_cmd": "./check %s --tier thorough" % pid,
                               "evidence_file": "evidence/%s.json" % pid, "replay_cmd_template": "./check %s --replay {path}" % pid,
-                              "engine": "cosim", "level_claimed": {"category": level, "text": text, "design_ref": "DESIGN.md section " + ref},
+                              "engine": {"C06": "dictcheck", "C07": "tmrcheck", "C08": "tmrcheck"}.get(pid, "cosim"), "level_claimed": {"category": level, "text": text, "design_ref": "DESIGN.md section " + ref},
                               "level_note": note, "technique": tech})
     else:
         man["not_applicable"].append({"property_id": pid, "reason": NA.get(pid, "check not built yet in this session (runtime monitoring applies; see DESIGN.md section 3)")})
